@@ -1412,6 +1412,26 @@ def gen_c13(tier, rng):
                 cases.append(f"mmiter dir=f cfg=auto rank=default{cpus} k={nf + 1} x={hexs(x)} h={hexs(h)}")
                 if N <= (1 << 12):
                     cases.append(f"mmiter dir=r k={nr + 1} x={hexs(x)} h={hexs(h)}")
+    # small-period long needles with the prefilter kept busy: haystacks made of near-copies (one byte wrong anywhere),
+    # borders, periods and candidate-free filler; step traces are compared with the model (<= 2100 bytes)
+    for r in range(60 if quick else 1500):
+        pp = rng.choice([3, 5, 8, 13, 17, 22, 32]); L = rng.choice([33, 40, 47, 64, 100])
+        w = bytes(rng.choice(b"abcde") for _ in range(pp))
+        x = (w * (L // pp + 2))[:L]
+        toks = [x, x[:L - 1], x[1:], x[pp:], x[:pp], w, b"-" * 9, b"-" * 40, b"-" * 200]
+        hb = b""
+        while len(hb) < (1800 if r % 4 else 500):
+            if rng.random() < 0.5:
+                y = bytearray(x); y[rng.randrange(L)] = rng.choice(b"abcdef-"); hb += bytes(y)
+            else:
+                hb += rng.choice(toks)
+        hb = hb[:2050]
+        k += 1
+        cpu = CPUS[k % 3]
+        cpus = f" cpu={cpu}" if cpu else ""
+        cases.append(f"mm f=find cfg=auto rank={['default', 'rev', 'id'][k % 3]}{cpus} x={hexs(x)} h={hexs(hb)} a={k % 64}")
+        if k % 5 == 0:
+            cases.append(f"mmiter dir=f cfg=auto rank=default{cpus} k={len(greedy_py(hb, x)) + 1} x={hexs(x)} h={hexs(hb)}")
     # exhaustive small binary strings
     for x in words(b"ab", 4, 1):
         for h in words(b"ab", 8 if quick else 10, 4):
